@@ -571,7 +571,9 @@ def conv_systematic(tier):
         expr = "O[q] = I[%s + %s] * F[s]" % (t(a, "q"), t(b, "s"))
         decl = {"I": ["W"], "F": ["S"], "O": ["Q"]}
         for part, los in (({"S": ["uniform_shape(2)"]}, (["S1", "S0", "Q"], ["S1", "Q", "S0"], ["Q", "S1", "S0"], ["S1", "W", "S0"])),
-                          ({"W": ["uniform_shape(2)"]}, (["W1", "W0", "Q"], ["W1", "W0", "S"], ["W1", "Q", "W0"]))):
+                          ({"W": ["uniform_shape(2)"]}, (["W1", "W0", "Q"], ["W1", "W0", "S"], ["W1", "Q", "W0"])),
+                          # output rank and filter rank both tiled: the projection has two partitioned symbols
+                          ({"Q": ["uniform_shape(2)"], "W": ["follow(Q)"], "S": ["uniform_shape(2)"]}, (["Q1", "S1", "Q0", "S0"], ["Q1", "S1", "S0", "Q0"], ["S1", "Q1", "W0", "Q0"]))):
             for lo in los:
                 y = mk_yaml(decl, [expr], part={"O": part}, lo={"O": lo})
                 out.append({"yaml": y, "configs": [{"Q": 4, "S": 3, "W": a * 3 + b * 2 + 1}], "family": "conv-other-rank", "key": y, "coeffs": (a, b), "lo": lo, "cap": 40})
